@@ -783,12 +783,17 @@ MANIFEST = dict(
     technique="Coq proof about an executable model of cparser's textual pre-processing (comment scanner, word scanner, "
               "#define extraction, line-directive stash/restore) + differential tie of every scanner to Python's re and to "
               "the real _preprocess + metamorphic test of the real parser with gcc -E as token-equivalence oracle",
-    text="Partial. Proved (all texts, unbounded): comment stripping preserves the number of newlines; at any cut that is outside "
-         "comments, a /* */ comment, a // comment with its newline, white space, or any sequence of these is replaced by white "
-         "space only, so the \\w+|\\S word sequence seen by the later steps is unchanged, and unchanged including line ends when "
-         "the filler contains no newline; a backslash-newline inside a #define value leaves the macro value unchanged; stashing "
-         "and restoring line directives is the identity. Tested, not proved: everything past _preprocess (pycparser), the '...' "
-         "and extern \"Python\" rewriting.",
+    text="Partial. Proved (all texts, unbounded): comment stripping preserves the number of newlines (C31_newlines_preserved) and "
+         "is compositional at cuts outside comments; a /* */ comment, a // comment with its newline, white space, or any "
+         "sequence of these inserted at such a cut is replaced by white space only, so the \\w+|\\S word sequence seen by the "
+         "later steps is unchanged (C31_insertion_keeps_words), including line ends when the filler has no newline "
+         "(C31_inline_insertion_keeps_lines); \\r \\f \\v become blanks without changing the words; a backslash-newline or "
+         "blanks inside a #define value leave the macro value unchanged; stash and restore of line directives is the identity "
+         "and the placeholder is inert for the comment scanner; the composed model of _preprocess returns plain declarations "
+         "unchanged (C31_preprocess_plain) and returns a line directive inserted between two lines of plain declarations "
+         "verbatim (C31_directive_insertion_plain). The composed statement for arbitrary fillers is false "
+         "(C31_full_statement_refuted; known findings). Tested, not proved: everything past _preprocess (pycparser), the "
+         "'...' / extern \"Python\" / __stdcall rewriting, directive insertion next to comments or #define lines.",
     note="Trusted: Coq kernel; hand model C31/Model.v of the regular expressions (tied by differential testing against re on "
          "every run, ASCII only); gcc -E as oracle for token equivalence; pycparser not modelled.",
     design_ref="DESIGN.md §4 C31")
